@@ -33,4 +33,100 @@ example :
     = [.call 1 (.key 65) .capture, .call 2 (.key 65) .target, .eff .redraw, .eff .consume] := by
   decide
 
+
+/-- **path_correct** (focused widget drawn). After a frame that drew `t`, `updatePath` calls no
+handler and leaves `path` = the root-to-focused chain of the first (pre-order) surface of the
+focused widget, prefixed by the root widget when the root surface belongs to another widget. -/
+theorem path_correct (o : Oracle) (fuel : Nat) (s : St) (t : STree) (p : List Id)
+    (h : chain s.focused t = some p) :
+    updatePath o fuel s t = { s with path := expectedPath s.root t s.focused } :=
+  updatePath_found o fuel s t p h
+
+/-- **path_correct** (focused widget not drawn): best-effort refocus of the root widget, and
+`path = [root]`. -/
+theorem path_correct_refocus (o : Oracle) (fuel : Nat) (s : St) (t : STree)
+    (h : chain s.focused t = none) :
+    (updatePath o fuel s t).path = expectedPath s.root t s.focused ∧
+    (updatePath o fuel s t).trace = (focusWidget o fuel { s with path := [] } s.root).trace ∧
+    (updatePath o fuel s t).focused = (focusWidget o fuel { s with path := [] } s.root).focused := by
+  have := updatePath_notfound o fuel s t h
+  simpa [expectedPath, h] using this
+
+/-- Routing right after a frame: over the drawn chain of the focused widget. -/
+theorem key_routing_after_frame (o o' : Oracle) (fuel : Nat) (s : St) (t : STree) (p : List Id)
+    (h : chain s.focused t = some p) (ev : Ev) (hev : Routable ev) :
+    ∃ tr, (handleEvent o fuel (updatePath o' fuel s t) ev).trace = s.trace ++ tr ∧
+      conforms ev s.focused (planOf o.captures (expectedPath s.root t s.focused) .focusTgt) tr = true := by
+  rw [path_correct o' fuel s t p h]
+  exact key_routing o fuel _ ev hev
+
+example : chain 2 (.node 0 9 9 [(0, 0, 0, .node 1 3 3 [(0, 0, 0, .node 2 1 1 [])])]) = some [0, 1, 2] := by decide
+
+/-- **focus_change_once** (history form). If no widget answers a FocusOut notification with a
+focus command, then whatever a command does — including focus changes nested in FocusIn
+handlers — the focus notifications it produces come in pairs FocusOut(current) … FocusIn(new),
+and the focused widget at the end is the receiver of the last FocusIn. -/
+theorem focus_change_once (o : Oracle) (hno : NoRefocusOnOut o) (fuel : Nat) (s : St) (c : Cmd) :
+    ∃ t, (handleCommand o fuel s c).trace = s.trace ++ t ∧
+      focusRun s.focused false t = some (handleCommand o fuel s c).focused :=
+  (focusGood_handleCommand o hno fuel).pairs s c
+
+/-- **focus_change_once** (single change). A focus command to a different widget whose two
+notifications are not answered with further focus commands: exactly one FocusOut to the old
+widget, then `focused := w`, then exactly one FocusIn to the new one; the effects of both
+answers happen exactly once, in place. -/
+theorem focus_change_single (o : Oracle) (fuel : Nat) (s : St) (w : Id) (hne : s.focused ≠ w)
+    (h1 : NoFocusAtoms (o.h s.focused .focusOut .target s.calls))
+    (h2 : NoFocusAtoms (o.h w .focusIn .target (s.calls + 1))) :
+    (handleCommand o (fuel + 2) s (.focus w)).trace =
+      s.trace ++ [.call s.focused .focusOut .target] ++
+        effsOf (o.h s.focused .focusOut .target s.calls).flatten ++
+        [.eff (.focusSet w), .call w .focusIn .target] ++
+        effsOf (o.h w .focusIn .target (s.calls + 1)).flatten ∧
+    (handleCommand o (fuel + 2) s (.focus w)).focused = w := by
+  simp only [handleCommand, Cmd.flatten, List.foldl_cons, List.foldl_nil, execAtom, focusWidgetWith,
+    if_neg hne, Model.Vxfw.call]
+  rw [foldl_nofocus _ o _ h1]
+  simp only []
+  rw [foldl_nofocus _ o _ h2]
+  simp
+
+/-- The full statement (no hypothesis on the oracle) is false of the code: see
+`Witness/F116.lean` (a FocusOut handler that returns a focus command). -/
+def focus_change_once_full : Prop :=
+  ∀ (o : Oracle) (fuel : Nat) (s : St) (c : Cmd),
+    ∃ t, (handleCommand o fuel s c).trace = s.trace ++ t ∧
+      focusRun s.focused false t = some (handleCommand o fuel s c).focused
+
+/-- Non-vacuity: an oracle meeting `NoRefocusOnOut` that does refocus inside FocusIn. -/
+example :
+    (handleCommand ⟨fun w ev _ _ => if w = 1 ∧ ev = .focusIn then .focus 2 else .nil, fun _ => false⟩ 5
+      (St.init 0) (.focus 1)).trace =
+    [.call 0 .focusOut .target, .eff (.focusSet 1), .call 1 .focusIn .target,
+     .call 1 .focusOut .target, .eff (.focusSet 2), .call 2 .focusIn .target] := by decide
+
+/-- **mouse_routing.** `mouseHandler.handleEvent` first updates the hit list against the last
+frame (enter/leave notifications), then — if anything is under the pointer — offers the event
+along the hit list exactly like a key event along the focus path, the last hit being the target. -/
+theorem mouse_routing (o : Oracle) (fuel : Nat) (s : St) (col row : Int) :
+    let s1 := mouseUpdate o fuel { s with mouse := some (col, row) } s.lastFrame
+    s1.lastHits = hitsAt s.lastFrame col row ∧
+    ∃ t, (mouseHandleEvent o fuel s col row).trace = s1.trace ++ t ∧
+      (match s1.lastHits.getLast? with
+       | none => t = []
+       | some tg => conforms (.mouse col row) s1.focused
+           (planOf o.captures (s1.lastHits.map (·.w)) (.tgt tg.w)) t = true) := by
+  intro s1
+  refine ⟨by simp [s1, mouseUpdate], ?_⟩
+  simp only [mouseHandleEvent]
+  change ∃ t, (match s1.lastHits.getLast? with
+      | none => s1
+      | some tg => dispatch o fuel (s1.lastHits.map Hit.w) (fun _ => tg.w) (.mouse col row) s1).trace = _ ∧ _
+  cases hl : s1.lastHits.getLast? with
+  | none => exact ⟨[], by simp, rfl⟩
+  | some tg =>
+    obtain ⟨t, ht, _, _, _, hc⟩ := dispatch_conforms (ev := .mouse col row) ⟨by simp, by simp⟩ o fuel
+      (s1.lastHits.map (·.w)) (fun _ => tg.w) (.tgt tg.w) (fun _ => rfl) s1
+    exact ⟨t, ht, hc⟩
+
 end VaxisModel.Props.C15
